@@ -91,7 +91,7 @@ def evalWith (p : Profile) (bs : List (String × Binding)) (e : Expr Float) : R 
       | some (.lit (.int i)) => some (.int i)
       | some (.lit (.float f)) => some (.float f)
       | some (.expr e) => some e
-      | none => none) 64 e
+      | none => none) (bs.length + 1) e
 
 /-- The reference evaluator of `Spec.Formula` on the same input (value shown in model syntax). -/
 def showSpec : Except Spec.SErr (Spec.SVal Float) → String
